@@ -27,6 +27,7 @@ META = dict(
     trusted=["symx numpy/builtins model"],
 )
 CANDS = ["A", "B", "C"]
+JC = ["X", "Y"]
 
 
 def cells(tier):
@@ -39,6 +40,12 @@ def cells(tier):
                 out.append(dict(kind="plurality", enc=kind, B=b, winners=winners, style=style))
         for style in (True, False):
             out.append(dict(kind="supermajority", enc=kind, B=b, style=style))
+    # other construction routes of the super-majority assertion (share taken from the contest; make_all_assertions)
+    for route in ("noarg", "all"):
+        out.append(dict(kind="supermajority", enc="bool", B=2 if tier == "quick" else 3, style=True, route=route))
+    # two contests tallied together: what a card shows in one contest must not affect the other contest's tally
+    for order in (["J", "K"], ["K", "J"]):
+        out.append(dict(kind="two_contests", enc="bool", B=2 if tier == "quick" else 3, style=True, order=order))
     return out
 
 
@@ -47,12 +54,24 @@ def _cards(ex, cell, A):
     # enc 'str': the literal encodings "" / "marked" on card 0 (chosen by forks), booleans elsewhere
     cards = [aud.Card("c", i, "K", CANDS, (cell["enc"] if (cell["enc"] != "str" or i == 0) else "bool"), ex, allow_missing_keys=(i == 0))
              for i in range(cell["B"])]
+    if cell["kind"] == "two_contests":
+        # each card may also list contest J (candidates X, Y; vote for one)
+        other = [aud.Card("j", i, "J", JC, "bool", ex, allow_missing_keys=False) for i in range(cell["B"])]
+        for cd, o in zip(cards, other):
+            cd.other = o
+            cd.votes = aud.PresDict({"J": o.lists, "K": cd.lists}, {"J": o.votes.inner["J"], "K": cd.votes.inner["K"]})
     cvrs = [A.CVR(id=i, votes=cd.votes) for i, cd in enumerate(cards)]
     return cards, cvrs
 
 
 def _inputs(m, cards):
-    return dict(cards=[cd.concrete(m, CANDS) for cd in cards])
+    out = []
+    for cd in cards:
+        d = cd.concrete(m, CANDS)
+        if hasattr(cd, "other"):
+            d = dict(cd.other.concrete(m, JC), **d)
+        out.append(d)
+    return dict(cards=out)
 
 
 def run_cell(cell):
@@ -70,12 +89,17 @@ def run_cell(cell):
         B = cell["B"]
         extra = {}
         try:
-            if cell["kind"] == "plurality":
-                winners = cell["winners"]
+            conJ = None
+            if cell["kind"] in ("plurality", "two_contests"):
+                winners = cell.get("winners", ["A"])
                 losers = [c for c in CANDS if c not in winners]
                 con = A.Contest(id="K", name="K", choice_function="PLURALITY", n_winners=len(winners), candidates=CANDS, winner=winners,
                                 audit_type="POLLING", use_style=style, cards=B)
                 asns = A.Assertion.make_plurality_assertions(con, winner=winners, loser=losers)
+                if cell["kind"] == "two_contests":
+                    conJ = A.Contest(id="J", name="J", choice_function="PLURALITY", n_winners=1, candidates=JC, winner=["X"],
+                                     audit_type="POLLING", use_style=style, cards=B)
+                    conJ.assertions = A.Assertion.make_plurality_assertions(conJ, winner=["X"], loser=["Y"])
             else:
                 f = z3.Real("share")
                 ex.assume(z3.And(f > 0, f < 1))
@@ -83,7 +107,14 @@ def run_cell(cell):
                 winners, losers = ["A"], ["B", "C"]
                 con = A.Contest(id="K", name="K", choice_function="SUPERMAJORITY", n_winners=1, candidates=CANDS, winner=["A"],
                                 share_to_win=EV(f), audit_type="POLLING", use_style=style, cards=B)
-                asns = A.Assertion.make_supermajority_assertion(con, share_to_win=EV(f), winner="A", loser=["B", "C"])
+                route = cell.get("route", "arg")
+                if route == "arg":
+                    asns = A.Assertion.make_supermajority_assertion(con, share_to_win=EV(f), winner="A", loser=["B", "C"])
+                elif route == "noarg":
+                    asns = A.Assertion.make_supermajority_assertion(con, winner="A", loser=["B", "C"])
+                else:
+                    A.Assertion.make_all_assertions({"K": con})
+                    asns = con.assertions
             con.assertions = asns
             from symx import merge
             for a in asns.values():      # per-card assorter values are merged into one term (forks inside do not multiply across cards)
@@ -93,7 +124,11 @@ def run_cell(cell):
             # margin from the tally over the same cards
             ncount = count([cd.lists for cd in cards]) if style else z3.IntVal(B)
             con.cards = SV(ncount) if style else B
-            A.Contest.tally({"K": con}, cvrs)          # enforce_rules=True (the default)
+            if conJ is not None:
+                conJ.cards = SV(count([cd.other.lists for cd in cards]))
+                A.Contest.tally({c: {"J": conJ, "K": con}[c] for c in cell["order"]}, cvrs)
+            else:
+                A.Contest.tally({"K": con}, cvrs)          # enforce_rules=True (the default)
             con.find_margins_from_tally()
             margins = {k: a.margin for k, a in asns.items()}
         except core.PathAbort:
@@ -112,7 +147,7 @@ def run_cell(cell):
         nmarks = [count([cd.vote(c) for c in CANDS]) for cd in cards]
         claims = []
         half = EV.of(F(1, 2))
-        if cell["kind"] == "plurality":
+        if cell["kind"] in ("plurality", "two_contests"):
             allgt = And(*[(EV.of(mv) > half).e for mv in means.values()])
             won = z3.And(*[V[w] > V[l] for w in winners for l in losers])
             claims.append(("all assorter means > 1/2 iff every winner has more votes than every loser", _b(allgt) == won, None))
@@ -134,7 +169,7 @@ def run_cell(cell):
             tol = R(F(1, 10 ** 9)) * (1 + z3.If(mg.v >= 0, mg.v, -mg.v))
             eq = Or(And(mg.nan, mn.nan), And(Not(mg.nan), Not(mn.nan), mg.v - (2 * mn.v - 1) <= tol, (2 * mn.v - 1) - mg.v <= tol))
             anycard = ncount > 0
-            if cell["kind"] == "plurality":
+            if cell["kind"] in ("plurality", "two_contests"):
                 # known finding: Contest.tally(enforce_rules=True) drops over-voted cards which the plurality assorter counts
                 claims.append((f"margin from tally = 2*mean - 1 [{k}] (no over-voted card)", z3.Implies(z3.And(anycard, z3.Not(overvoted)), _b(eq)), None))
                 claims.append((f"margin from tally = 2*mean - 1 [{k}] (some card over-voted)", z3.Implies(z3.And(anycard, overvoted), _b(eq)), KNOWN_13B))
@@ -174,18 +209,30 @@ def replay(f):
     B = len(cvrs)
     bad = []
     try:
-        if cell["kind"] == "plurality":
-            winners = cell["winners"]
+        conJ = None
+        if cell["kind"] in ("plurality", "two_contests"):
+            winners = cell.get("winners", ["A"])
             losers = [c for c in CANDS if c not in winners]
             con = A.Contest(id="K", name="K", choice_function="PLURALITY", n_winners=len(winners), candidates=CANDS, winner=winners,
                             audit_type="POLLING", use_style=style, cards=B)
             asns = A.Assertion.make_plurality_assertions(con, winner=winners, loser=losers)
+            if cell["kind"] == "two_contests":
+                conJ = A.Contest(id="J", name="J", choice_function="PLURALITY", n_winners=1, candidates=JC, winner=["X"],
+                                 audit_type="POLLING", use_style=style, cards=B)
+                conJ.assertions = A.Assertion.make_plurality_assertions(conJ, winner=["X"], loser=["Y"])
         else:
             fshare = float(F(str(inp["share"])))
             winners, losers = ["A"], ["B", "C"]
             con = A.Contest(id="K", name="K", choice_function="SUPERMAJORITY", n_winners=1, candidates=CANDS, winner=["A"],
                             share_to_win=fshare, audit_type="POLLING", use_style=style, cards=B)
-            asns = A.Assertion.make_supermajority_assertion(con, share_to_win=fshare, winner="A", loser=["B", "C"])
+            route = cell.get("route", "arg")
+            if route == "arg":
+                asns = A.Assertion.make_supermajority_assertion(con, share_to_win=fshare, winner="A", loser=["B", "C"])
+            elif route == "noarg":
+                asns = A.Assertion.make_supermajority_assertion(con, winner="A", loser=["B", "C"])
+            else:
+                A.Assertion.make_all_assertions({"K": con})
+                asns = con.assertions
         con.assertions = asns
         listed = [c for c in cvrs if "K" in c.votes]
         pop = listed if style else cvrs
@@ -193,7 +240,7 @@ def replay(f):
             means = {k: a.assorter.mean(cvrs, use_style=style) for k, a in asns.items()}
         truth = lambda c, cand: "K" in c.votes and cand in c.votes["K"] and bool(c.votes["K"][cand])
         V = {cand: sum(truth(c, cand) for c in cvrs) for cand in CANDS}
-        if cell["kind"] == "plurality":
+        if cell["kind"] in ("plurality", "two_contests"):
             allgt = all((not np.isnan(mv)) and mv > 0.5 for mv in means.values())
             won = all(V[w] > V[l] for w in winners for l in losers)
             if allgt != won:
@@ -217,7 +264,11 @@ def replay(f):
                     bad.append(f"assort(card {i}) = {v!r} outside [0, {a.assorter.upper_bound}]")
         if pop:
             con.cards = len(pop)
-            A.Contest.tally({"K": con}, cvrs)
+            if conJ is not None:
+                conJ.cards = max(1, sum("J" in c.votes for c in cvrs))
+                A.Contest.tally({c: {"J": conJ, "K": con}[c] for c in cell["order"]}, cvrs)
+            else:
+                A.Contest.tally({"K": con}, cvrs)
             con.find_margins_from_tally()
             for k, a in asns.items():
                 if not abs(a.margin - (2 * means[k] - 1)) <= 1e-9 * (1 + abs(a.margin)):
